@@ -76,6 +76,9 @@ type Stmt struct {
 	Limit      *int       `json:"limit,omitempty"`
 	Offset     *int       `json:"offset,omitempty"`
 	LimitComma bool       `json:"limit_comma,omitempty"` // LIMIT off, n spelling
+	// Raw: literal SQL text, for checks that do not consult the model (C11 purity over features the model lacks);
+	// rendered to Coq as an empty SELECT over dual
+	Raw string `json:"raw,omitempty"`
 }
 
 // ---------- constructors ----------
@@ -267,6 +270,9 @@ func (f *From) SQL() string {
 }
 
 func (s *Stmt) SQL() string {
+	if s.Raw != "" {
+		return s.Raw
+	}
 	if s.Union {
 		kw := " UNION "
 		if s.All {
@@ -499,6 +505,9 @@ func (it Item) name() string {
 }
 
 func (s *Stmt) Coq() string {
+	if s.Raw != "" {
+		return "(SSelect (Build_select [] FDual None [] None [] false [] None None))"
+	}
 	if s.Union {
 		if len(s.With) > 0 {
 			// BuildUnion hands the union's WITH clause to both branches (when they have none)
